@@ -9,12 +9,14 @@ NA_REASON = {}   # property id -> reason, for properties deliberately not claime
 
 def main():
     checks, na, engines = [], [], []
+    targets = []
     for pid in ALL:
         claimed = open(os.path.join(vlib.VERIF, 'tools', 'claimed.txt')).read().split()
         if pid not in claimed or not os.path.exists(os.path.join(vlib.VERIF, 'props', pid, 'plugin.py')):
             na.append({'property_id': pid, 'reason': NA_REASON.get(pid, 'no check registered yet in this revision (work in progress, see DESIGN.md §6 %s); not a claim that the technique cannot apply' % pid)})
             continue
         P = vlib.load_plugin(pid)
+        targets += list(P.LEAN_MODULES) + [P.EXE]
         checks.append({
             'property_id': pid,
             'quick_cmd': './check %s --tier quick' % pid,
@@ -28,7 +30,7 @@ def main():
         })
     man = {
         'version': 1,
-        'setup_cmd': 'cd /verif/lean && lake build',
+        'setup_cmd': 'cd /verif/lean && lake build ' + ' '.join(targets),
         'hooks': {
             'guard': 'TBOX_VERIF',
             'enable': 'harness sources are compiled by tools/vlib.py with -DTBOX_VERIF=1 from /repo working tree (no change to the repo build)',
